@@ -98,6 +98,7 @@ type Exec struct {
 	autoRange  map[*ssa.BasicBlock]*rangeInv
 	ghostKeys  map[string]string
 	private    map[*ssa.Alloc]bool
+	pendingAssume []*CallAssert
 	paramNames map[string]bool
 	debugBound map[*Env]map[string]bool
 }
@@ -697,6 +698,7 @@ func (ex *Exec) enterLoop(h *ssa.BasicBlock, li *loopInfo, preds []*ssa.BasicBlo
 		}
 		fv := c.freshVal(phi.Type(), ex.nm(phi.Name()+"_h"))
 		fv.Typ = phi.Type()
+		c.assume(ex.v.wfAssume(c, fv)) // type invariant of slice/string values
 		ex.vals[phi] = fv
 	}
 	ex.havocLoopMemory(li)
